@@ -8,6 +8,8 @@
              x (ledger state class) x (authorisation class)
    Operators:
      nominal       well-typed nominal arguments
+   The EDGE operators (boundary, arity, dangling, wrongres) are never subsampled: every path of the
+   input type x every variant of the harness table; only the bulk operator (wrongkind) is capped.
      boundary      well-typed boundary value at the path (0/1/MAX/MIN integers, 0/1 atto/MAX/
                    negative/MIN amounts, empty / over-long strings and byte arrays, empty /
                    duplicated / large collections, every enum variant, nesting at the depth
@@ -22,10 +24,13 @@
      proofthenuse  a live proof of every bucket created before the buckets are passed
    The concrete values behind (operator, kind, variant) are a fixed table of the harness.   *)
 EXTENDS Integers, Sequences, FiniteSets, TLC, Json, IOUtils
-CONSTANTS States,        \* state classes used: subset of {"genesis", "rich"}
-          Auths,         \* subset of {"none", "owner", "system", "noauth" (auth module off: any badge holder)}
-          MaxPaths,      \* paths used per (function, operator)   (0 = all)
-          MaxVariants    \* variants used per (operator, kind)    (0 = all)
+CONSTANTS States,        \* state classes used for the bulk part: subset of {"genesis", "rich"}
+          Auths,         \* authorisation classes of the bulk part: subset of {"none", "owner", "system", "noauth"}
+                         \* ("noauth" = auth module off: what any holder of the right badges can reach)
+          EdgeStates,    \* state / authorisation classes in which the EDGE operators (boundary, arity,
+          EdgeAuths,     \* dangling, wrongres) are applied - always at EVERY path with EVERY variant
+          MaxPaths,      \* bulk operator (wrongkind): paths used per function    (0 = all)
+          MaxVariants    \* bulk operator (wrongkind): variants used per path      (0 = all)
 VARIABLE f
 
 Cat == JsonDeserialize(IOEnv.CATALOG).fns
@@ -56,24 +61,31 @@ HasKind(e, kind) == \E i \in DOMAIN e.paths : e.paths[i].k = kind
 Callable(e) == e.states # <<>>
 StatesOf(e) == {e.states[i] : i \in DOMAIN e.states} \cap States
 
-\* indices of the paths of e to which op applies, the first MaxPaths of them
+EdgeOps == {"boundary", "arity", "dangling", "wrongres"}      \* never subsampled
+BulkOps == {"wrongkind"}
+\* indices of the paths of e to which op applies (bulk operators: the first MaxPaths of them)
 PathsFor(e, op) ==
   LET idx == {i \in DOMAIN e.paths : Applicable(op, e.paths[i].k)}
-  IN IF MaxPaths = 0 THEN idx ELSE {i \in idx : Cardinality({j \in idx : j < i}) < MaxPaths}
+  IN IF MaxPaths = 0 \/ op \in EdgeOps THEN idx ELSE {i \in idx : Cardinality({j \in idx : j < i}) < MaxPaths}
+VariantsFor(op, kind) == IF op \in EdgeOps THEN NVariants(op, kind) ELSE Cap(NVariants(op, kind), MaxVariants)
 
 \* "noauth" switches the auth module off: what a holder of the right badges could reach.  Methods that
 \* only the blueprint's own package / outer object may call (and root-only functions) have no such
 \* holder - no transaction can be their caller - so they are not combined with "noauth".
-AuthsOf(e) == IF e.access \in {"ownpkg", "outer", "root"} THEN Auths \ {"noauth"} ELSE Auths
+AuthsFor(e, A) == LET B == IF e.access \in {"ownpkg", "outer", "root"} THEN A \ {"noauth"} ELSE A
+                  IN IF B = {} THEN {"owner"} ELSE B
+\* the edge operators use EdgeStates where the function has a receiver there, else wherever it has one
+EdgeStatesOf(e) == LET S == {e.states[i] : i \in DOMAIN e.states} IN IF S \cap EdgeStates # {} THEN S \cap EdgeStates ELSE S
+ForOp(e, op, SS, AA) ==
+  UNION {{[f |-> e.f, op |-> op, path |-> e.paths[i].p, kind |-> e.paths[i].k, k |-> k, state |-> s, auth |-> a] :
+            k \in 0..(VariantsFor(op, e.paths[i].k) - 1), s \in SS, a \in AA}
+         : i \in PathsFor(e, op)}
 Purposes(e) ==
-  UNION {
-    UNION {
-      {[f |-> e.f, op |-> op, path |-> e.paths[i].p, kind |-> e.paths[i].k, k |-> k, state |-> s, auth |-> a] :
-          k \in 0..(Cap(NVariants(op, e.paths[i].k), MaxVariants) - 1), s \in StatesOf(e), a \in AuthsOf(e)}
-      : i \in PathsFor(e, op)}
-    : op \in PathOps}
+  UNION {ForOp(e, op, EdgeStatesOf(e), AuthsFor(e, EdgeAuths)) : op \in EdgeOps}
+  \cup UNION {ForOp(e, op, StatesOf(e), AuthsFor(e, Auths)) : op \in BulkOps}
   \cup {[f |-> e.f, op |-> op, path |-> <<>>, kind |-> "call", k |-> k, state |-> s, auth |-> a] :
-          op \in {o \in CallOps : o # "proofthenuse" \/ HasKind(e, "bucket")}, k \in 0..1, s \in StatesOf(e), a \in AuthsOf(e)}
+          op \in {o \in CallOps : o # "proofthenuse" \/ HasKind(e, "bucket")}, k \in 0..1,
+          s \in StatesOf(e) \cup EdgeStatesOf(e), a \in AuthsFor(e, Auths \cup EdgeAuths)}
 
 Init == f \in 1..N
 Next == FALSE /\ UNCHANGED f
